@@ -38,6 +38,16 @@ def pattern_judge(op, impl, spec):
     return True
 
 
+def _c13_judge(op, impl, spec):
+    if impl.startswith(("err", "PANIC")) or impl == "bad-op":
+        return False
+    if spec == "*":
+        return True
+    if "=" in spec and " " in spec or spec.startswith("mc="):
+        return pattern_judge(op, impl, spec)
+    return impl == spec
+
+
 def _c12_nontrivial(lines):
     # a case with a multi-block (fragmented) record or several sessions, and damage/truncation ops
     sess = [l for l in lines if l.startswith("session")]
@@ -311,6 +321,31 @@ PROPS = {
         "trusted_base": ["modelled, not verified: the step order inside CoreInner::new / Core::new / Core::close (hand-written programs "
                          "openProg / closeProg, compared with the yield-point trace of every call), LockFile::acquire/release",
                          "the OS advisory lock"],
+    },
+    "C13": {
+        "lean": ["Skv.Props.C13"],
+        "audit": "Skv/Audit/C13.lean",
+        "streams": [
+            {"name": "tables", "harness": "c13", "driver": "c13", "quick_cases": 150, "thorough_cases": 3000,
+             "nontrivial": lambda lines: any(l.startswith("layout") and (";" in l or "/" in l) for l in lines) and
+                                          any(l.startswith("cur") and l.split()[1:] != ["-", "-"] for l in lines),
+             "judge": _c13_judge, "timeout": 1800},
+        ],
+        "rule": "entry sets (1-24 user keys from a pool with 0x00/0xff-terminated keys, prefix chains and 8-60-byte shared prefixes; "
+                "1-14 versions per key incl. seq 0 and MAX_SEQ; empty, short, 60-400-byte and pointer-shaped values) written by the real "
+                "TableWriter under block size {32..4096} x restart interval {1,2,3,4,16} x index partition size {20,64,256,16384} x "
+                "{none, snappy} x filter on/off; the physical layout read back through the real index and block readers is checked "
+                "well-formed and its separators are recomputed by the model; every Table::get for stored and absent keys at, just above "
+                "and just below every stored seq, every step of bounded cursor programs (all nine bound-kind pairs, complete forward and "
+                "backward passes, random first/last/next/prev/seek), every filter probe and key-range shortcut is compared with the model "
+                "run over that layout and with the flat-list specification; non-trivial = more than one block and a bounded cursor",
+        "assumptions": [
+            "seek(target) is exercised with targets inside the lower bound (a seek below the lower bound is outside the cursor contract)",
+            "byte encodings (prefix compression, varints, trailer, footer), Snappy and the bloom hash are exercised end to end but not modelled",
+        ],
+        "trusted_base": ["modelled, not verified: TableIterator / Table::get / IndexIterator / BlockIterator::seek_internal control flow, "
+                         "comparator separator/successor, key-range predicates (hand transcription into Skv/Model/Sst.lean, SstSep.lean)",
+                         "the layout dump hook (src/verif.rs sstable::Tbl::layout) reads through the same block readers it describes"],
     },
     "C15": {
         "lean": ["Skv.Props.C15"],
